@@ -121,7 +121,7 @@ def job_storage(job):
                             continue
                         same = (res[0] == base[0]) and (res[0] == 'raise' and res[1] == base[1] or res[0] == 'value' and (_eq(res[1], base[1]) or _eqf(res[1], base[1])))
                         # a raise may legitimately depend on the pattern only through the element (e.g. ZeroDivisionError)
-                        if not same and len(out['failures']) < 20:
+                        if not same and len(out['failures']) < 400:
                             out['failures'].append({'config': cfg, 'op': name, 'what': 'result depends on storage',
                                                     'a': showmv(ak2, av2), 'b': showmv(bk2, bv2) if binary else None,
                                                     'variant': [va, vb], 'got': str(res)[:300], 'expected_same_as': str(base)[:300],
@@ -276,7 +276,7 @@ def job_history(job):
                     for m in got[1][1]:
                         pass
                     returned.append((got[1][0], tuple(got[1][0].keys()), list(got[1][0].values())))
-                if not ok and len(out['failures']) < 10:
+                if not ok and len(out['failures']) < 400:
                     out['failures'].append({'config': cfg, 'what': 'result differs from a fresh algebra', 'history': steps[-12:],
                                             'step': [kind, name], 'a': showmv(ks, av), 'b': showmv(ks2, bv),
                                             'got': str(g)[:300], 'expected': str(e)[:300]})
@@ -540,7 +540,7 @@ def job_aliasing(job):
                     m.values()[0] = F(-54321)
                     changed = list(r.values()) != before
                     m.values()[0] = saved
-                    if changed and len(out['failures']) < 20:
+                    if changed and len(out['failures']) < 400:
                         out['failures'].append({'config': cfg, 'operand': oname, 'keys': list(ks), 'call': cname,
                                                 'what': 'a previously returned multivector changed when the operand was written in place'})
         if len(out['samples']) < 2:
